@@ -144,6 +144,9 @@ def check(case, acc):
     acc.trans()
     acc.state(obs)
     acc.outcome(obs)
+    post = observe(lambda: ra)
+    if post != ("R", None, tuple(tuple(r) for r in rows)):
+        acc.fail("indexing-changed-the-array", ("R", None, tuple(tuple(r) for r in rows)), post)
     if exp == "refuse":
         acc.nontrivial()
         if not is_refused(obs):
